@@ -365,5 +365,21 @@ fn main() {
         explore(&a[2..]);
         return;
     }
+    if a.len() >= 4 && a[1] == "--one" {
+        // replay of one text: c12 --one <lang> <hex utf-8> [param index]
+        let lang = LANGS.iter().find(|l| **l == a[2]).copied().unwrap_or("gql");
+        let q = String::from_utf8_lossy(&unhex(&a[3])).to_string();
+        let pix: Option<u64> = a.get(4).and_then(|s| s.parse().ok());
+        quiet_panics();
+        println!("text ({} bytes): {:?}", q.len(), q.chars().take(400).collect::<String>());
+        println!("real lexer: {:?}", real_lex(lang, &q).map(|t| t.len()));
+        let mut pool = Pool::new();
+        pool.timeout = Duration::from_millis(6000);
+        for (bit, name) in STAGE_NAMES {
+            let (o, dt) = pool.run(lang, bit, pix, &q);
+            println!("{:15} {:?} ({:.2}s)", name, o, dt);
+        }
+        return;
+    }
     harness_main();
 }
